@@ -89,4 +89,67 @@ def plumbing(ctx: Ctx, clause: str = "S1", g3: bool = True, g4: bool = True):
         R_args.g4_affix(ctx.pkg, ctx.res, funcs, ctx.col, clause)
         R_args.g4_strip_matched(ctx.pkg, funcs, ctx.col, clause)
     R_args.g16_stale_loop_vars(ctx.pkg, funcs, ctx.col, clause)
+    hazards(ctx, funcs, clause)
     return funcs
+
+
+def hazards(ctx: Ctx, funcs, clause: str = "S0"):
+    """Generic, repository-tuned hazard rules over the functions a property owns (zero reports package-wide on
+    the repaired tree): G19 known-rank contradictions, G20 -inf sentinel times a 0/1 mask, G21 unsigned NumPy
+    scalars decremented and sign-tested, G22 constructor reads before initialisation, G23 truncating index slices
+    whose bound is computed locally."""
+    import ast as _ast
+    from rules.initorder import init_reads_before_set
+    from rules.narrowint import NarrowInt
+    from rules.rank import analyse
+    from rules.sentinel import SentinelTaint
+    from rules.trunc import TruncAnalysis
+    from sa.astutil import u
+    col = ctx.col
+    n = 0
+    for f in funcs:
+        if f.parent is not None or f.is_overload:
+            continue
+        n += 1
+        rel = f.module.relname
+        where = f"{rel}::{f.qualname}"
+        ra = analyse(f)
+        seen, bad = set(), []
+        for node, msg in ra.findings:
+            if id(node) not in seen:
+                seen.add(id(node))
+                bad.append((node, msg))
+        if ra.known_sites or bad:
+            col.ob("G19", clause, f"{where}::dimension-within-known-rank", not bad,
+                   (bad[0][1] + " - this branch fails for every input that reaches it") if bad else "", rel,
+                   bad[0][0].lineno if bad else f.line, sample=[m for _, m in bad] or f"{ra.known_sites} dimension uses within rank",
+                   nontrivial=False)
+        st = SentinelTaint(f)
+        ms = [s_ for s_ in st.sinks() if s_[1] == "mask"]
+        if ms or any(st.is_source(x) for x in _ast.walk(f.node)):
+            col.ob("G20", clause, f"{where}::neg-inf-sentinel*bool-mask", not ms,
+                   ("a tensor that can hold the -inf sentinel is multiplied by a 0/1 mask (-inf * 0 = NaN): "
+                    + "; ".join(f"line {s_[0].lineno}: `{u(s_[0])[:70]}`" for s_ in ms[:3])) if ms else "", rel,
+                   ms[0][0].lineno if ms else f.line, sample=[u(s_[0])[:90] for s_ in ms] or "sentinel never multiplied by a mask",
+                   nontrivial=False)
+        ni = NarrowInt(f)
+        if ni.ctor_vars:
+            fs = ni.findings()
+            names = {nm for _, k, nm in fs if k in ("decrement", "subtract", "negate")} & {nm for _, k, nm in fs if k == "sign-test"}
+            col.ob("G21", clause, f"{where}::unsigned-scalar-decremented-and-sign-tested", not names,
+                   f"`{sorted(names)[0] if names else ''}` may be an unsigned NumPy scalar that is decremented and sign-tested "
+                   f"without int() widening", rel, f.line, nontrivial=False)
+        ta = TruncAnalysis(f)
+        params = {p.name for p in f.params}
+        tb = [s_ for s_ in ta.sites if not s_["ok"] and s_["k"] not in params]
+        if ta.sites:
+            col.ob("G23", clause, f"{where}::index-slices-cover-their-extent", not tb,
+                   (f"`{u(tb[0]['node'])}` slices an index range of extent {tb[0]['extents']} to `{tb[0]['k']}` entries "
+                    f"without a cover (extent is not a max including it, no dominating guard)") if tb else "", rel,
+                   tb[0]["node"].lineno if tb else f.line, sample=[u(s_["node"]) for s_ in ta.sites][:4], nontrivial=False)
+        if f.name == "__init__" and f.cls is not None:
+            bads = init_reads_before_set(ctx.res, f)
+            col.ob("G22", clause, f"{where}::reads-before-initialisation", not bads,
+                   (f"`self.{bads[0][0]}` is read before it is assigned and before super().__init__()") if bads else "", rel,
+                   bads[0][1].lineno if bads else f.line, nontrivial=False)
+    col.count("hazard_functions", n)
